@@ -95,7 +95,7 @@ CLAIMED.update({
 E2E_SCOPE = "Scope of the end-to-end theorem (stage 1 of the compiler-correctness proof): compiled programs in which every Delegate instruction hands over a DETERMINISTIC capture-free block - a concatenation of character classes, case-insensitive literals, any-char, assertions and literals (the class next to a hard construct, the class inside a look-around, the \\Z helper); in hard context the compiler lowers everything else to VM instructions, and runs of plain literals become one Lit. Programs that delegate a block containing alternation, repetition or capture groups are outside the theorem and patterns in which no conditional sits inside the body of an atomic group, of a look-around or in the condition position of another conditional (the statement is false there: known finding F-condleak; conditionals everywhere else - in loops, groups, alternations, branches of other conditionals - are covered, by an auxiliary-stack relation that tolerates the entry the lowering leaks on the false path); look-behinds over alternations of different lengths are covered (compiled as an alternation / sequence of look-behinds, which is also how the reference semantics reads them). That half of 'regardless of which sub-expressions are handed to the automata engine' is decided by the differential tiers (reference differential of the real crate against the extracted reference semantics, T2 program listing, T3 exact run statistics), not by a theorem."
 CLAIMED.update({
     "C01": dict(
-        text="PARTIAL (see scope). Machine-checked (Coq, Qed, closed under the global context), for EVERY pattern in scope, every valid UTF-8 text < 2^64 bytes, every boundary start offset, every stack bound, backtrack limit and step budget: the model of vm::run (copy-on-write state of vm.rs, bounded stack, limit) executed on the model of compile.rs's output for (?s:.)*?(RE) reports Match only with exactly the capture vector (hence span) of the reference search - the first result, in priority order, of the list-monad reference semantics - reports NoMatch only if the reference has no result, never reaches a panic site, and otherwise returns StackOverflow / BacktrackLimitExceeded (C01_vm_follows_reference). It is assembled from: compiler correctness for every construct by structural induction (seg_all: the code of ANY sub-expression arrives at its exit exactly as often, in the same order, with the same offsets and capture slots as the reference semantics lists results, keeps the auxiliary stack and foreign slots, then fails back; loops by induction on fuel/count using the C13 size soundness for progress), the bounded interpreter following the unbounded small-step machine (RunCorrect), the C20 state refinement lifted to whole runs (run_sim), and - for Delegate instructions - the theorem that the continuation-passing semantics the Delegate oracle and the checks evaluate is the list semantics read by 'first accepted result' for every construct (semk_sem, C01_reference_forms_agree). Ties: T2 (model compiler output = real compiler output incl. delegate pattern strings, analysis facts through the hook), T3 (model VM = real vm::run result and exact statistics), and the real search API against the extracted reference semantics on the generated pattern x text x offset space. " + E2E_SCOPE,
+        text="PARTIAL (see scope). Machine-checked (Coq, Qed, closed under the global context), for EVERY pattern in scope, every valid UTF-8 text < 2^64 bytes, every boundary start offset, every stack bound, backtrack limit and step budget: the model of vm::run (copy-on-write state of vm.rs, bounded stack, limit) executed on the model of compile.rs's output for (?s:.)*?(RE) reports Match only with exactly the capture vector (hence span) of the reference search - the first result, in priority order, of the list-monad reference semantics - reports NoMatch only if the reference has no result, never reaches a panic site, and otherwise returns StackOverflow / BacktrackLimitExceeded (C01_vm_follows_reference). It is assembled from: compiler correctness for every construct by structural induction (seg_all: the code of ANY sub-expression arrives at its exit exactly as often, in the same order, with the same offsets and capture slots as the reference semantics lists results, keeps the auxiliary stack and foreign slots, then fails back; loops by induction on fuel/count using the C13 size soundness for progress), the bounded interpreter following the unbounded small-step machine (RunCorrect), the C20 state refinement lifted to whole runs (run_sim), and - for Delegate instructions - the theorem that the continuation-passing semantics the Delegate oracle and the checks evaluate is the list semantics read by 'first accepted result' for every construct (semk_sem, C01_reference_forms_agree). The hypotheses have an executable form (in_scope, shown sound: C01_in_scope) that every run evaluates on every generated pattern; the evidence reports the share of VM-compiled patterns inside the theorem (about 70% of the quick tier's). Ties: T2 (model compiler output = real compiler output incl. delegate pattern strings, analysis facts through the hook), T3 (model VM = real vm::run result and exact statistics), and the real search API against the extracted reference semantics on the generated pattern x text x offset space. " + E2E_SCOPE,
         note="Trusted: Coq kernel; extraction (ExtrOcamlBasic) + ocaml/driver.ml; Rust harness and hooks; oracle data for character classes on the harness alphabet; regex-automata as the oracle inside Delegate (leftmost-first on delegated blocks). Known finding F1 (nullable unbounded repeat inside a delegated block) is reported as KNOWN-FINDING.",
         technique="Coq structural induction over Expr with a generator judgement over a small-step machine (compiler correctness), fuel/count induction for the five repeat lowerings, lock-step lemmas bounded/unbounded and L0/L1, + differential correspondence (T2/T3) and reference differential of the real crate",
         design="7/C01, 6"),
